@@ -76,6 +76,7 @@ def floors(tier):
         "history:inproc-second": n,
         "history:stale-version": 2 * n,
         "history:edited": n,
+        "history:tail-edit": max(1, n // 2),
         "history:reverted": 2 * n,
         "history:inproc-edit": 2 * n,
         "history:same-name-home": n,
@@ -316,6 +317,43 @@ def edit_model_text(text, mnemonic):
     return head + sep + "".join(entries), n
 
 
+def tail_variants(orig, edited):
+    """(orig', edited'): both texts with the first entry that differs moved to the very end of the file, behind comment padding
+    that makes the preceding text a multiple of 4096 bytes minus a few; they differ only inside the last partial 4 KiB block."""
+    ho, sep, bo = orig.partition("\ninstruction_forms:\n")
+    he, _, be = edited.partition("\ninstruction_forms:\n")
+    if not sep or ho != he:
+        return None
+    eo = re.split(r"(?m)^(?=- name:)", bo)
+    ee = re.split(r"(?m)^(?=- name:)", be)
+    if len(eo) != len(ee):
+        return None
+    diff = [i for i, (a, b) in enumerate(zip(eo, ee)) if a != b]
+    if not diff:
+        return None
+    moved, size = [], 0
+    for i in diff:
+        sz = max(len(eo[i].encode()), len(ee[i].encode())) + 1
+        if size + sz > 3600:
+            break
+        moved.append(i)
+        size += sz
+    if not moved:
+        return None
+    # entries that differ but do not fit stay edited in both variants, so that only the moved ones differ
+    keep = [ee[j] for j in range(len(eo)) if j not in moved]
+    prefix = ho + sep + "".join(keep)
+    if not prefix.endswith("\n"):
+        prefix += "\n"
+    n = len(prefix.encode())
+    pad = (4096 - (n % 4096)) % 4096
+    if pad < 8:
+        pad += 4096
+    prefix += "#" + "p" * (pad - 2) + "\n"
+    nl = lambda t: t if t.endswith("\n") else t + "\n"  # noqa
+    return prefix + "".join(nl(eo[i]) for i in moved), prefix + "".join(nl(ee[i]) for i in moved)
+
+
 def find_edit(cx, cold):
     """An edited model text whose cold reports differ from the original cold reports: (text, reports) or None."""
     with open(cx.files[0][1]) as f:
@@ -501,6 +539,37 @@ def g_content(cx):
         os.utime(yml, (st.st_atime, st.st_mtime))
         res = cx.run(h, deny=deny)
         judge(cx, res, cold, "reverted", "mtime-preserved", variant=where, diff_key="cache/stale-after-edit/%s-revert" % where)
+    # ---- the same edit confined to the last bytes of the file: the edited entry is moved to the end of the file in both versions,
+    #      behind padding that lets it start right after a 4 KiB boundary (a cache key that does not cover the whole content,
+    #      e.g. a block-wise hash that drops the final partial block, serves the stale entry)
+    tail = tail_variants(orig, edited)
+    if tail is None:
+        R.count("tail_edit_not_constructible")
+    else:
+        orig_t, edited_t = tail
+        hA, hB = cx.new_home(copies=True), cx.new_home(copies=True)
+        write_private(os.path.join(cx.data_dir(hA), cx.model + ".yml"), orig_t)
+        write_private(os.path.join(cx.data_dir(hB), cx.model + ".yml"), edited_t)
+        cold_ot, cold_et = cx.run(hA)["reports"], cx.run(hB)["reports"]
+        ok = len(cold_ot) == len(cx.argvs) == len(cold_et) and all(r["rc"] == 0 for r in cold_ot + cold_et)
+        if not ok or all(a["out"] == b["out"] for a, b in zip(cold_ot, cold_et)):
+            R.count("tail_edit_without_effect")
+        else:
+            R.count("history:tail-edit")
+            for where in ("data", "cache"):
+                h = cx.new_home(copies=True)
+                deny = [] if where == "data" else [cx.data_dir(h)]
+                yml = os.path.join(cx.data_dir(h), cx.model + ".yml")
+                write_private(yml, orig_t)
+                cx.run(h, deny=deny)
+                res = cx.run(h, deny=deny)
+                judge(cx, res, cold_ot, "tail-edit", "before-edit", variant=where)
+                write_private(yml, edited_t)
+                res = cx.run(h, deny=deny)
+                judge(cx, res, cold_et, "tail-edit", "after-edit", variant=where, diff_key="cache/stale-after-edit/tail-block-%s" % where)
+                write_private(yml, orig_t)
+                res = cx.run(h, deny=deny)
+                judge(cx, res, cold_ot, "tail-edit", "after-revert", variant=where, diff_key="cache/stale-after-edit/tail-block-%s-revert" % where)
     # ---- edit while one process is alive (in-process cache must not serve the old content)
     for start in ("cold", "warm"):
         h = cx.new_home(copies=True)
